@@ -1,6 +1,6 @@
 (* C09 - Perpetual pool aggregates equal the sum of positions; custody is always backed. Statements only. *)
 From Coq Require Import ZArith List Bool Arith.
-From Elys Require Import Base.Res Base.Fn Models.SumLedger Models.PerpLedger Proofs.PerpLedgerProofs.
+From Elys Require Import Base.Res Base.Fn Models.SumLedger Models.PerpLedger Proofs.PerpLedgerProofs Models.PerpBacking Proofs.PerpBackingProofs.
 Import ListNotations.
 Open Scope Z_scope.
 
@@ -21,12 +21,61 @@ Theorem C09_invariant : forall fields h s, PInv fields s -> PInv fields (prun fi
 Proof. exact prun_inv. Qed.
 Print Assumptions C09_invariant.
 
-(* FULL STATEMENT (not proved): in every reachable state, for every asset, amm reserve >= total custody.
-   PROVED PART: it holds as long as, since the last successful CheckMinimumCustodyAmt, the reserve did not
-   go down and the total custody did not go up. Missing: funding-fee distribution raises custody without a
-   transfer and without the check; deriving that distributions never exceed collections needs the funding
-   arithmetic, which is implementation-resolved here. The harness evaluates reserve >= custody on the real
-   state after every tx and block. *)
+(* CUSTODY BACKING.  Model: Models/PerpBacking.v (per asset: amm reserve, long/short custody, long collateral, short
+   liabilities; the primitive moves with CheckMinimumCustodyAmt placed exactly where the code runs it).
+   FULL STATEMENT: in every reachable state, for every asset, amm reserve >= total custody.
+   - On the code BEFORE fix: 85af696 the statement was FALSE (C09_custody_backed_refuted; reproduced on the real application,
+     signature C09:custody-not-backed:close-positions-item-aborts-after-interest-transfer): perpetual MsgClosePositions ran its
+     items without a cache context, and a liquidation item that failed in FundingFeeDistribution (open interest of the side = 0)
+     had already transferred the borrow interest out of the pool while the custody reduction was dropped.
+   - For that code it was TRUE for every history in which no item does that (C09_custody_backed_asis).
+   - THE CODE AS IT IS (since 85af696 every item runs on a cache context written only on success: items are all-or-nothing,
+     everything else as coded): TRUE for ALL histories (C09_custody_backed, C09_custody_backed_from_genesis).
+   The older, weaker statement is kept below (C09_custody_backed_partial). *)
+
+(* the guard that keeps funding distribution from raising custody: the caller passes the current height as start block *)
+Theorem C09_funding_distribution_is_zero : forall sd fs cur share price, fund_dist sd fs cur share price = 0.
+Proof. exact fund_dist_zero. Qed.
+Print Assumptions C09_funding_distribution_is_zero.
+
+(* every transaction (any list of amm operations with their hook checks, opens, consolidations, user closes, with arbitrary
+   amounts, all or nothing) and every MsgClosePositions with all-or-nothing items keeps reserve >= custody for every asset,
+   over every history and at every boundary of it *)
+Theorem C09_custody_backed : forall assets h s, Inv assets s -> Inv assets (brun item_atomic assets s h).
+Proof. intros assets h. exact (brun_atomic_inv assets h). Qed.
+Print Assumptions C09_custody_backed.
+
+Theorem C09_custody_backed_from_genesis : forall assets h1 h2,
+  Inv assets (brun item_atomic assets b_empty h1) /\ Inv assets (brun item_atomic assets b_empty (h1 ++ h2)).
+Proof. intros assets h1 h2. apply brun_atomic_prefix. apply b_empty_inv. Qed.
+Print Assumptions C09_custody_backed_from_genesis.
+
+(* the code before fix: 85af696 (items not atomic): true for every history in which no item leaves a transfer behind *)
+Theorem C09_custody_backed_asis : forall assets h s,
+  Inv assets s -> abort_free assets s h = true -> Inv assets (brun item_asis assets s h).
+Proof. intros assets h. exact (brun_asis_inv assets h). Qed.
+Print Assumptions C09_custody_backed_asis.
+
+(* ... and the transfer that can be left behind is the whole interest payment only: in a backed state the second of the two
+   interest transfers cannot fail after the first *)
+Theorem C09_second_interest_transfer_cannot_fail : forall assets s it s1,
+  Inv assets s -> In (si_d it) assets -> 0 <= scu s (si_d it) -> 0 <= lcu s (si_d it) ->
+  si_take it + si_rev it <= cu s (si_side it) (si_d it) -> 0 <= si_rev it ->
+  mstep assets s (MOut (si_d it) (si_take it)) = Ok s1 ->
+  exists s2, mstep assets s1 (MOut (si_d it) (si_rev it)) = Ok s2.
+Proof. exact second_transfer_cannot_fail. Qed.
+Print Assumptions C09_second_interest_transfer_cannot_fail.
+
+(* the code before fix: 85af696 refutes the full statement: a history of a join, an open, an exit (all accepted by the hook check) and
+   one MsgClosePositions ends with custody 6000 > reserve 5959 of asset 1; the state before the last message is backed *)
+Theorem C09_custody_backed_refuted : exists h,
+  backed_b [0%nat; 1%nat] (brun item_asis [0%nat; 1%nat] b_empty (firstn 3 h)) = true /\
+  let s := brun item_asis [0%nat; 1%nat] b_empty h in rsv s 1%nat < tcu s 1%nat.
+Proof.
+  exists refute_history. split; [exact refuted_prefix_backed|]. destruct refuted_asis as [H1 H2]. cbv zeta. rewrite H1, H2. reflexivity.
+Qed.
+Print Assumptions C09_custody_backed_refuted.
+
 Theorem C09_custody_backed_partial : forall s cf reserve reserve' s',
   check_min_custody s cf reserve = true ->
   reserve <= reserve' -> total_custody s' cf <= total_custody s cf ->
